@@ -2,27 +2,31 @@
 C18 — Evaluation is pure, isolated from the caller and reentrant.
 
 Model: `Fpy/Model/Boundary.lean` (the Python boundary over the core-language evaluator `Fpy.Lang`).
-The theorems, and what each one is about:
+`Policy.current` is the code of /repo as it is (captured lists copied at every activation, `from_value`
+rebuilds every container: commits 20fad08 and 1c6f5b2, which repaired the findings F7 and F8);
+`Policy.legacy` is the code before.  The property theorems are about `Policy.current`, at full strength:
 
 * HEAP LEVEL, a call from Python on the one CPython heap (`callBoundary` = `to_value` on every argument,
-  `callEntry`, `from_value` -- as it is or, `Policy.rebuildResult`, always rebuilding), for ANY caller values
-  (aliased, nested, shared between arguments) and ANY function table:
+  `callEntry`, `from_value`), for ANY caller values (aliased, nested, shared between arguments), ANY
+  function table and either policy:
     `args_untouched`  no cell that existed before the call is written;
     `result_fresh`    every cell reachable from the result was allocated by the call.
-  Both are proved from the frame property of the evaluator (`EvalFrame`, proved for every function table
-  in `Fpy/Proof/Frame.lean`: `evalFrame`).
-* PROCESS LEVEL, the state machine `call | transform | mutateResult` over the compiled-function cache:
-    `history_independent_partial`  for a module whose capturable values hold no list, the observation of
-        `call f args ctx` after ANY history is `pureCall` of (module, definition, args, ctx);
-    `history_independent_counterexample` (F7) and `result_shared_counterexample` (F8): with the faithful
-        capture-once-share-afterwards treatment of a captured list the unrestricted statement is FALSE;
-    `history_independent_fixed`  with the proposed F7 fix (`Policy.copyCaptured`) the statement holds for
-        EVERY module (the proof uses the frame property: what a call returns lives in cells it allocated);
-    `schedule_independent_partial`  every interleaving of the atomic steps `lookup|compile|insert|run`
-        of N calls gives each call its sequential result (same restriction on captured lists), and
-        `schedule_complete`: a schedule that runs every thread four times finishes every call.
-  NOT modelled (that is why the level is `partial`): preemption inside C extensions, gmpy2's thread-local
-  MPFR context, partial writes before an exception, free variables of callees.
+  Both rest on the frame property of the evaluator, proved for every function table (`evalFrame`,
+  `Fpy/Proof/Frame.lean`).
+* PROCESS LEVEL, the state machine `call | transform | mutateResult` over the compiled-function cache,
+  for EVERY module (whatever it captures):
+    `history_independent`  the observation of `call f args ctx` after ANY history is `pureCall` of
+        (module, definition, args, ctx); `history_independent_two_histories`, `transformed_copy_same_result`;
+    `schedule_independent` / `schedule_independent_fresh`  every interleaving of the atomic steps
+        `lookup|compile|insert|run` of N calls gives each call its sequential result;
+        `schedule_complete`  a thread that gets the lock four times has finished.
+* LEGACY (`Policy.legacy`, regression witnesses): `legacy_history_independent_counterexample` (F7: the same
+  call returns 2 then 3), `legacy_result_shared_counterexample` (F8: the caller's store into a returned list
+  changes the next call); `legacy_history_independent_partial`: what did hold before the repair.
+
+NOT modelled (that is why the level is `partial`): preemption inside C extensions, gmpy2's thread-local
+MPFR context, partial writes before an exception, free variables of callees, a Python caller that rebinds
+or mutates a module-level value (capture time = first call).
 -/
 import Fpy.Proof.BoundaryProc
 import Fpy.Proof.Frame
@@ -53,47 +57,47 @@ theorem result_fresh (π : Policy) (Φ : Funs) (fuel : Nat) (f : String) (args :
 
 /-! ## process level: history -/
 
-/-- HISTORY INDEPENDENCE (partial: modules whose capturable module-level values hold no list).
-Whatever operations `h` came before -- calls of any function with any arguments under any context, calls
-that fail, transformations, the caller mutating values it was handed back -- the call `f(args, ctx=ctx)`
-observes `pureCall`, which mentions neither the history nor the state. -/
-theorem history_independent_partial (P : Prog) (fuel : Nat) (hP : NoCapturedLists P) (h : List Op)
+/-- HISTORY INDEPENDENCE, for every module.  Whatever operations `h` came before -- calls of any function
+with any arguments under any context, calls that fail, transformations, the caller mutating values it was
+handed back -- the call `f(args, ctx=ctx)` observes `pureCall`, which mentions neither the history nor the
+state.  A captured list may be assigned into and returned: the writes and the returned cells are the
+activation's own (the proof uses the frame property: what a call returns lives in cells it allocated). -/
+theorem history_independent (P : Prog) (fuel : Nat) (hπ : P.policy = Policy.current) (h : List Op)
     (fid : Nat) (d : FuncDef) (hd : P.defs[fid]? = some d) (args : List Tree) (ctx : Option Ctx) :
     (step P fuel (run P fuel State.init h) (.call fid args ctx)).2 = some (pureCall P fuel d args ctx) :=
-  step_call_obs (run_preserves hP h (cacheOK_init P fuel)) fid args ctx (defAt_of_defs _ hd)
+  history_independent_of_copy P fuel (current_copies hπ) h fid d hd args ctx
 
 /-- two histories, same observation -/
-theorem history_independent_two_histories (P : Prog) (fuel : Nat) (hP : NoCapturedLists P) (h₁ h₂ : List Op)
+theorem history_independent_two_histories (P : Prog) (fuel : Nat) (hπ : P.policy = Policy.current) (h₁ h₂ : List Op)
     (fid : Nat) (d : FuncDef) (hd : P.defs[fid]? = some d) (args : List Tree) (ctx : Option Ctx) :
     (step P fuel (run P fuel State.init h₁) (.call fid args ctx)).2 =
     (step P fuel (run P fuel State.init h₂) (.call fid args ctx)).2 := by
-  rw [history_independent_partial P fuel hP h₁ fid d hd, history_independent_partial P fuel hP h₂ fid d hd]
+  rw [history_independent P fuel hπ h₁ fid d hd, history_independent P fuel hπ h₂ fid d hd]
 
 /-- a transformed copy (a new `FuncDef` identity: its own cache entry, its own compilation) of a definition
 evaluates like the definition it was made from, wherever in the history it is made and called -/
-theorem transformed_copy_same_result (P : Prog) (fuel : Nat) (hP : NoCapturedLists P) (h₁ h₂ : List Op)
+theorem transformed_copy_same_result (P : Prog) (fuel : Nat) (hπ : P.policy = Policy.current) (h₁ h₂ : List Op)
     (fid : Nat) (d : FuncDef) (hd : P.defs[fid]? = some d) (args : List Tree) (ctx : Option Ctx) :
     (step P fuel (run P fuel (run P fuel State.init h₁) (.transform fid :: h₂))
         (.call (P.defs ++ (run P fuel State.init h₁).extra).length args ctx)).2 = some (pureCall P fuel d args ctx) := by
+  obtain ⟨c1, r1⟩ := run_preserves_fixed (current_copies hπ) h₁ (cacheOK_init P fuel) (resultsOK_init P fuel)
   have hS : CacheOK P fuel (run P fuel (run P fuel State.init h₁) (.transform fid :: h₂)) :=
-    run_preserves hP _ (run_preserves hP h₁ (cacheOK_init P fuel))
+    (run_preserves_fixed (current_copies hπ) _ c1 r1).1
   apply step_call_obs hS
   show defAt P (run P fuel (step P fuel (run P fuel State.init h₁) (.transform fid)).1 h₂) _ = some d
   exact defAt_run h₂ (transform_new_identity P fuel _ fid d (defAt_of_defs _ hd))
 
-/-! ### the faithful treatment of a captured list: the unrestricted statement is false (F7, F8) -/
-
 def one : NV := .fv (.fin ⟨false, 0, 1⟩)
 def two : NV := .fv (.fin ⟨false, 0, 2⟩)
 
-/-- `D = [1.0]` at module level;  `def f(): D[0] = D[0] + 1; return D[0]` -/
+/-- `D = [1.0]` at module level;  `def f(): D[0] = D[0] + 1; return D[0]`  (the F7 program) -/
 def progF7 : Prog :=
   { defs := [{ name := "f", params := [], ctx := none,
                body := [.iassign "D" [.num (.q 0 1)] (.op .add [.index (.var "D") (.num (.q 0 1)), .num (.q 1 1)]),
                         .ret (.index (.var "D") (.num (.q 0 1)))] }],
     globals := [("D", .list 0)], pyHeap := [[.num one]] }
 
-/-- `D = [1.0]` at module level;  `def g(): return D` -/
+/-- `D = [1.0]` at module level;  `def g(): return D`  (the F8 program) -/
 def progF8 : Prog :=
   { defs := [{ name := "g", params := [], ctx := none, body := [.ret (.var "D")] }],
     globals := [("D", .list 0)], pyHeap := [[.num one]] }
@@ -106,89 +110,70 @@ def obsList1 : Obs → Option NV
   | some (.ok (.list [.num v])) => some v
   | _ => none
 
-/-- F7: the same call, made twice in a row in a fresh process, returns 2 and then 3. -/
-theorem history_independent_counterexample :
-    (observe progF7 20 State.init [.call 0 [] none, .call 0 [] none]).map obsNum
-      = [some two, some (.fv (.fin ⟨false, 0, 3⟩))] := by
+/-- non-vacuity on the programs of the repaired findings: 2, 2 and `[1]`, `[1]` -/
+example : progF7.policy = Policy.current := rfl
+
+example : (observe progF7 20 State.init [.call 0 [] none, .call 0 [] none]).map obsNum = [some two, some two] := by
   decide
 
-/-- F8: a returned captured list is the interpreter's own cell; after the caller stores 99 into it the next
-call returns `[99]`. -/
-theorem result_shared_counterexample :
-    (observe progF8 20 State.init [.call 0 [] none, .mutateResult 0 0 (.fv (.fin ⟨false, 0, 99⟩)), .call 0 [] none]).filterMap
-        (fun o => obsList1 o)
-      = [one, .fv (.fin ⟨false, 0, 99⟩)] := by
-  decide
-
-/-! ### the proposed fix restores the property for every module -/
-
-/-- HISTORY INDEPENDENCE WITH THE F7 FIX (captured lists copied at every activation,
-`/var/tmp/patches/F7.diff`): no restriction on what the module captures.  A captured list can still be
-assigned into and returned, but the writes and the returned cells are the activation's own. -/
-theorem history_independent_fixed (P : Prog) (fuel : Nat) (hπ : P.policy.copyCaptured = true) (h : List Op)
-    (fid : Nat) (d : FuncDef) (hd : P.defs[fid]? = some d) (args : List Tree) (ctx : Option Ctx) :
-    (step P fuel (run P fuel State.init h) (.call fid args ctx)).2 = some (pureCall P fuel d args ctx) :=
-  step_call_obs (run_preserves_fixed hπ h (cacheOK_init P fuel) (resultsOK_init P fuel)) fid args ctx (defAt_of_defs _ hd)
-
-/-- the F7 and F8 programs under the fix: 2, 2 and `[1]`, `[1]` -/
-example : (observe { progF7 with policy := Policy.fixed } 20 State.init [.call 0 [] none, .call 0 [] none]).map obsNum
-    = [some two, some two] := by
-  decide
-
-example : (observe { progF8 with policy := Policy.fixed } 20 State.init
+example : (observe progF8 20 State.init
             [.call 0 [] none, .mutateResult 0 0 (.fv (.fin ⟨false, 0, 99⟩)), .call 0 [] none]).filterMap (fun o => obsList1 o)
     = [one, one] := by
   decide
 
-/-- the F8 fix alone (`from_value` rebuilds) does not repair F7 -/
+/-! ### the code before the repairs (`Policy.legacy`): the property fails -/
+
+/-- what held before the repair: history independence for modules whose capturable values hold no list
+(true under either policy) -/
+theorem legacy_history_independent_partial (P : Prog) (fuel : Nat) (hP : NoCapturedLists P) (h : List Op)
+    (fid : Nat) (d : FuncDef) (hd : P.defs[fid]? = some d) (args : List Tree) (ctx : Option Ctx) :
+    (step P fuel (run P fuel State.init h) (.call fid args ctx)).2 = some (pureCall P fuel d args ctx) :=
+  step_call_obs (run_preserves hP h (cacheOK_init P fuel)) fid args ctx (defAt_of_defs _ hd)
+
+/-- F7 (repaired by 20fad08): under the legacy capture-once-share-afterwards treatment the same call, made
+twice in a row in a fresh process, returns 2 and then 3. -/
+theorem legacy_history_independent_counterexample :
+    (observe { progF7 with policy := Policy.legacy } 20 State.init [.call 0 [] none, .call 0 [] none]).map obsNum
+      = [some two, some (.fv (.fin ⟨false, 0, 3⟩))] := by
+  decide
+
+/-- F8 (repaired by 1c6f5b2): under the legacy policy a returned captured list is the interpreter's own cell;
+after the caller stores 99 into it the next call returns `[99]`. -/
+theorem legacy_result_shared_counterexample :
+    (observe { progF8 with policy := Policy.legacy } 20 State.init
+        [.call 0 [] none, .mutateResult 0 0 (.fv (.fin ⟨false, 0, 99⟩)), .call 0 [] none]).filterMap (fun o => obsList1 o)
+      = [one, .fv (.fin ⟨false, 0, 99⟩)] := by
+  decide
+
+/-- rebuilding results alone (the F8 repair without the F7 repair) would not have repaired F7 -/
 example : (observe { progF7 with policy := { copyCaptured := false, rebuildResult := true } } 20 State.init
             [.call 0 [] none, .call 0 [] none]).map obsNum = [some two, some (.fv (.fin ⟨false, 0, 3⟩))] := by
   decide
 
 /-! ## process level: threads -/
 
-/-- SCHEDULE INDEPENDENCE (partial: `NoSharedCells` = nothing captured holds a list, or the F7 fix is in
-force; atomic steps only).
-N calls run as threads over the shared cache; a schedule is ANY list of thread indices.  Starting from a
-cache whose entries are compilations of their definitions (e.g. the empty cache) and threads at their
-first instruction, every thread that has finished holds the result of its call made alone in a fresh
+/-- SCHEDULE INDEPENDENCE, for every module (atomic steps only: preemption inside C extensions and gmpy2's
+thread-local context are not modelled).  N calls run as threads over the shared cache; a schedule is ANY list
+of thread indices.  Starting from a cache whose entries are compilations of their definitions (e.g. the
+empty cache) and threads whose program counters hold what the sequential call would hold (e.g. all at their
+first instruction), every thread that has finished holds the result of its call made alone in a fresh
 process.  Cache insertions are idempotent: two threads that both miss both compile, both insert, and the
-entries are equal. -/
-theorem schedule_independent_partial (P : Prog) (fuel : Nat) (hP : NoSharedCells P) (sched : List Nat) :
-    ∀ (cache : List (Nat × Compiled)) (ts : List Thread), TCacheOK P fuel cache → (∀ t ∈ ts, ThreadOK P fuel t) →
-      TCacheOK P fuel (runSchedule P fuel cache ts sched).1 ∧
-      ∀ t ∈ (runSchedule P fuel cache ts sched).2, ∀ r, t.pc = .done r → r = seqResult P fuel t := by
-  induction sched with
-  | nil =>
-    intro cache ts hc hts
-    refine ⟨hc, ?_⟩
-    intro t ht r hr
-    have := hts t ht
-    simpa [ThreadOK, hr] using this
-  | cons i rest ih =>
-    intro cache ts hc hts
-    simp only [runSchedule]
-    cases hi : ts[i]? with
-    | none => exact ih cache ts hc hts
-    | some t =>
-      simp only
-      have ht : ThreadOK P fuel t := hts t (List.mem_of_getElem? hi)
-      obtain ⟨h1, h2, _, _, _⟩ := tstep_preserves hP hc ht
-      apply ih _ _ h1
-      intro t' ht'
-      rcases List.mem_or_eq_of_mem_set ht' with h | h
-      · exact hts t' h
-      · exact h ▸ h2
+entries are equal; `run` leaves no cell behind. -/
+theorem schedule_independent (P : Prog) (fuel : Nat) (hπ : P.policy = Policy.current) (sched : List Nat)
+    (cache : List (Nat × Compiled)) (ts : List Thread) (hc : TCacheOK P fuel cache) (hts : ∀ t ∈ ts, ThreadOK P fuel t) :
+    TCacheOK P fuel (runSchedule P fuel cache ts sched).1 ∧
+    ∀ t ∈ (runSchedule P fuel cache ts sched).2, ∀ r, t.pc = .done r → r = seqResult P fuel t :=
+  schedule_independent_from P fuel (Or.inr (current_copies hπ)) sched cache ts hc hts
 
 /-- the threads of `calls`, each at its first instruction -/
 def spawn (calls : List (Nat × List Tree × Option Ctx)) : List Thread :=
   calls.map (fun c => { fid := c.1, args := c.2.1, ctx := c.2.2, pc := .start })
 
 /-- the statement for a fresh process: empty cache, all threads at `start` -/
-theorem schedule_independent_fresh (P : Prog) (fuel : Nat) (hP : NoSharedCells P)
+theorem schedule_independent_fresh (P : Prog) (fuel : Nat) (hπ : P.policy = Policy.current)
     (calls : List (Nat × List Tree × Option Ctx)) (sched : List Nat) :
     ∀ t ∈ (runSchedule P fuel [] (spawn calls) sched).2, ∀ r, t.pc = .done r → r = seqResult P fuel t := by
-  apply (schedule_independent_partial P fuel hP sched [] (spawn calls) ?_ ?_).2
+  apply (schedule_independent P fuel hπ sched [] (spawn calls) ?_ ?_).2
   · intro fid c h; simp [lookup] at h
   · intro t ht
     simp only [spawn, List.mem_map] at ht
@@ -225,7 +210,7 @@ example : NoCapturedLists { defs := [], globals := [("K", .num one), ("T", .tupl
   simp [NoCapturedLists, RefFreeL, RefFree]
 
 /-- `def h(xs): xs[0] = 2.0; return xs` called on the caller's list `[1.0]` (cell 0): it returns `[2.0]` in a
-NEW cell and cell 0 still holds `[1.0]` -/
+NEW cell (cell 2; cell 1 is the interpreter's copy of the argument) and cell 0 still holds `[1.0]` -/
 def demoH : FuncDef :=
   { name := "h", params := ["xs"], ctx := none,
     body := [.iassign "xs" [.num (.q 0 1)] (.num two), .ret (.var "xs")] }
@@ -234,7 +219,7 @@ def demoLook : M (Val × Heap) → Option (Nat × List (Option NV))
   | .ok (.list r, μ) => some (r, (μ.map (fun l => match l with | [.num v] => some v | _ => none)))
   | _ => none
 
-example : demoLook (callBoundary Policy.current ⟨[demoH]⟩ 20 "h" [.list 0] [[.num one]] none) = some (1, [some one, some two]) := by
+example : demoLook (callBoundary Policy.current ⟨[demoH]⟩ 20 "h" [.list 0] [[.num one]] none) = some (2, [some one, some two, some two]) := by
   decide
 
 /-- two threads calling the same uncompiled function, interleaved so that both miss, both compile and
